@@ -719,6 +719,293 @@ theorem backtrack_sound (σ : Leaves) (st : Store) (pref : Engine) (hpk : pref.k
                     injection h with h; injection h with h1 h2; subst h1; subst h2
                     exact g1
 
+/-! ### Back-tracking never raises a column error for a valid operation -/
+
+/-- Exceptions that are not about the request being ill-formed: the documented `EngineError`, and
+two model artefacts (recursion budget; an iteration-engine tree that contains a `sql.Select`). -/
+def Err.benign (e : Err) : Prop := e = .engine ∨ e = .fuel ∨ e = .notImpl
+
+theorem bt_step_done_err (σ : Leaves) (o cur : UOp) (target : Rel) (f : UOp) (u' : Rel) (e : Err)
+    (hC : commuteSoundAt o cur target.columns (sem σ target))
+    (hf : (o.commute cur target.columns (cur.appliedColumns target.columns)).first = some f)
+    (ih : BTok σ f target u' true)
+    (hfin : (o.commute cur target.columns (cur.appliedColumns target.columns)).second.finishApply u' = .error e) :
+    e = .engine := by
+  obtain ⟨_, hsw, _, _⟩ := commuteSoundAt_some o cur target.columns (sem σ target) f hC hf
+  obtain ⟨_, hcols⟩ := ih.done_sound rfl
+  have hswu : (o.commute cur target.columns (cur.appliedColumns target.columns)).second.wfOn u'.columns = true := by
+    rw [wfOn_congr _ _ _ hcols]; exact hsw
+  exact finishApply_error σ u' _ ih.wf hswu e hfin
+
+theorem bt_step_pending_nonproj_err (σ : Leaves) (o cur : UOp) (target : Rel) (f : UOp) (u : Rel) (e : Err)
+    (hcur : cur.wfOn target.columns = true) (hnp : o.isProj = false)
+    (hC : commuteSoundAt o cur target.columns (sem σ target))
+    (hf : (o.commute cur target.columns (cur.appliedColumns target.columns)).first = some f)
+    (ih : BTok σ f target u false)
+    (hfin : (if (!false && !((o.commute cur target.columns (cur.appliedColumns target.columns)).second.columnsRequired.subset u.columns)) = true
+              then cur else (o.commute cur target.columns (cur.appliedColumns target.columns)).second).finishApply u = .error e) :
+    e = .engine := by
+  obtain ⟨hfo, _⟩ := commute_first_nonproj o cur _ _ f hnp hf
+  subst hfo
+  obtain ⟨_, hcols⟩ := ih.pend_same rfl hnp
+  obtain ⟨hfw, _, _, _⟩ := commuteSoundAt_some f cur target.columns (sem σ target) f hC hf
+  have hrepl : (if (!false && !((f.commute cur target.columns (cur.appliedColumns target.columns)).second.columnsRequired.subset u.columns)) = true
+              then cur else (f.commute cur target.columns (cur.appliedColumns target.columns)).second) = cur := by
+    rcases commute_second_nonproj f cur target.columns (cur.appliedColumns target.columns) hnp with h | ⟨tag, ex, c, h1, h2, h3⟩
+    · rw [h]; split <;> rfl
+    · subst h1; subst h2
+      rw [h3]
+      have : ((UOp.proj (c.insert tag)).columnsRequired.subset u.columns) = false := by
+        rw [Bool.eq_false_iff]
+        intro hs
+        have : tag ∈ u.columns := (Cols.subset_iff _ _).mp hs tag ((Cols.mem_insert c tag tag).mpr (Or.inr rfl))
+        have : tag ∈ target.columns := (hcols tag).mp this
+        simp only [UOp.wfOn, UOp.columnsRequired, Bool.and_eq_true, decide_eq_true_eq] at hfw
+        exact hfw.2 this
+      simp [this]
+  rw [hrepl] at hfin
+  have hcu : cur.wfOn u.columns = true := by rw [wfOn_congr cur _ _ hcols]; exact hcur
+  exact finishApply_error σ u cur ih.wf hcu e hfin
+
+theorem bt_step_pending_proj_err (σ : Leaves) (cols : Cols) (cur : UOp) (target : Rel) (F : Cols) (u : Rel)
+    (hcur : cur.wfOn target.columns = true)
+    (hop : (UOp.proj cols).wfOn (cur.appliedColumns target.columns) = true) (hnd : cur.isDedup = false)
+    (hf : ((UOp.proj cols).commute cur target.columns (cur.appliedColumns target.columns)).first = some (.proj F))
+    (ih : BTok σ (.proj F) target u false) :
+    (∀ e, (if (!false && !(((UOp.proj cols).commute cur target.columns (cur.appliedColumns target.columns)).second.columnsRequired.subset u.columns)) = true
+              then cur else ((UOp.proj cols).commute cur target.columns (cur.appliedColumns target.columns)).second).finishApply u = .error e →
+        e = .engine) ∧
+    (∀ res e, (if (!false && !(((UOp.proj cols).commute cur target.columns (cur.appliedColumns target.columns)).second.columnsRequired.subset u.columns)) = true
+              then cur else ((UOp.proj cols).commute cur target.columns (cur.appliedColumns target.columns)).second).finishApply u = .ok res →
+        (UOp.proj ((res.get u).columns.inter (cur.appliedColumns target.columns))).finishApply (res.get u) = .error e →
+        e = .engine) := by
+  have hFU : ∀ t, t ∈ F → t ∈ u.columns := by
+    have := ih.pend_wf rfl
+    rw [UOp.wfOn_proj] at this
+    exact (Cols.subset_iff _ _).mp this
+  have hUT := ih.pend_cols rfl
+  have heq : (sem σ u).map (fun r => r.restrict F) = (sem σ target).map (fun r => r.restrict F) := (ih.pend_sound rfl).1
+  obtain ⟨hsw, hsreq, _, _⟩ := proj_pending_step cols cur target.columns F u.columns (sem σ target) (sem σ u)
+    hcur hop hnd hf hFU hUT heq
+  have hrepl : (if (!false && !(((UOp.proj cols).commute cur target.columns (cur.appliedColumns target.columns)).second.columnsRequired.subset u.columns)) = true
+              then cur else ((UOp.proj cols).commute cur target.columns (cur.appliedColumns target.columns)).second) =
+      ((UOp.proj cols).commute cur target.columns (cur.appliedColumns target.columns)).second := by
+    simp [hsreq]
+  rw [hrepl]
+  refine ⟨fun e he => finishApply_error σ u _ ih.wf hsw e he, ?_⟩
+  intro res e hfin he
+  have Fr := finishApply_sound σ u _ ih.wf ih.truthful hsw res hfin
+  have hw2 : (UOp.proj ((res.get u).columns.inter (cur.appliedColumns target.columns))).wfOn (res.get u).columns = true := by
+    rw [UOp.wfOn_proj, Cols.subset_iff]
+    intro t ht; exact ((Cols.mem_inter _ _ t).mp ht).1
+  exact finishApply_error σ (res.get u) _ Fr.wf hw2 e he
+
+theorem beginApply_ok_of_wf (o : UOp) (t : Rel) (pref : Option Engine) (h : o.wfOn t.columns = true) :
+    ∃ v, o.beginApply t pref = .ok v := by
+  unfold UOp.beginApply
+  cases o with
+  | identity => exact ⟨_, rfl⟩
+  | dedup => exact ⟨_, rfl⟩
+  | slice a b => simp only; split <;> exact ⟨_, rfl⟩
+  | sort ts =>
+    simp only [UOp.wfOn, UOp.columnsRequired, Bool.and_true] at h
+    simp only
+    split
+    · exact ⟨_, rfl⟩
+    · have : ts.all (fun tm => tm.expr.columnsRequired.subset t.columns) = true := by
+        simp only [List.all_eq_true]
+        intro tm htm
+        exact sortCols_subset_term ts t.columns h tm htm
+      simp [this]
+  | sel p =>
+    simp only [UOp.wfOn, UOp.columnsRequired, Bool.and_true] at h
+    simp only
+    split
+    · exact ⟨_, rfl⟩
+    · simp [h]
+  | proj c =>
+    simp only [UOp.wfOn, UOp.columnsRequired, Bool.and_true] at h
+    simp only
+    split
+    · exact ⟨_, rfl⟩
+    · simp [h]
+  | «calc» tag ex =>
+    simp only [UOp.wfOn, UOp.columnsRequired, Bool.and_eq_true, decide_eq_true_eq] at h
+    simp [h.1, h.2]
+
+/-- `apply` with default options inside an iteration engine, for a valid operation, raises nothing
+but `EngineError` (or the model's budget artefact). -/
+theorem applyOp_iter_error (σ : Leaves) (st : Store) (fuel : Nat) (o : UOp) (t : Rel) (e : Err)
+    (hk : t.engine.kind = .iter) (hwf : t.WF) (hop : o.wfOn t.columns = true)
+    (h : applyOp st fuel (.u o) t {} = .error e) : e.benign := by
+  match fuel, h with
+  | 0, h0 => rw [applyOp_fuel_zero] at h0; injection h0 with h0; exact Or.inr (Or.inl h0.symm)
+  | 1, h1 =>
+    rw [applyOp] at h1
+    simp only [AnyOp.beginApply] at h1
+    obtain ⟨v, hv⟩ := beginApply_ok_of_wf o t none hop
+    obtain ⟨o', en⟩ := v
+    have he := beginApply_engine o t o' en hv
+    subst he
+    simp [hv, Except.map, bind, Except.bind, appendUnary, Res.get, pure, Except.pure] at h1
+    exact Or.inr (Or.inl h1.symm)
+  | k+2, h2 =>
+    rw [applyOp_iter st k o t hk] at h2
+    obtain ⟨v, hv⟩ := beginApply_ok_of_wf o t none hop
+    obtain ⟨o', en⟩ := v
+    simp only [hv] at h2
+    rcases beginApply_cases o t o' en hv with ⟨h1, hwfo⟩ | ⟨h1, _⟩
+    · subst h1
+      exact Or.inl (finishApply_error σ t o' hwf hwfo e h2)
+    · subst h1
+      rw [finishApply_identity] at h2; cases h2
+
+/-- **A valid operation is never rejected with a column error because of where back-tracking tried
+to put it** (nor with any other internal error). -/
+theorem backtrack_error (σ : Leaves) (st : Store) (pref : Engine) (hpk : pref.kind = .iter) :
+    (fuel : Nat) → (o : UOp) → (tree : Rel) → (e : Err) →
+    tree.WF → tree.Truthful σ → o.wfOn tree.columns = true → (o.isProj = true → tree.spineNoDedup) →
+    backtrack st fuel (.u o) tree pref = .error e → e.benign
+  | 0, o, tree, e, _, _, _, _, h => by
+    rw [backtrack] at h; injection h with h; exact Or.inr (Or.inl h.symm)
+  | fuel+1, o, tree, e, hwf, htr, hop, hnd, h => by
+    cases hk : tree.engine.kind with
+    | sql => rw [backtrack.eq_def] at h; simp [hk] at h
+    | iter =>
+      cases tree with
+      | leaf a b c d e' f g i => rw [backtrack.eq_def] at h; simp [hk, Rel.isLocked] at h
+      | mat a b c => rw [backtrack.eq_def] at h; simp [hk, Rel.isLocked] at h
+      | binary a b c d => rw [backtrack.eq_def] at h; simp [hk, Rel.isLocked] at h
+      | select a b c d e' f g i j =>
+        rw [backtrack.eq_def] at h
+        simp [hk, Rel.isLocked] at h
+        exact Or.inr (Or.inr h.symm)
+      | transfer oid dest target =>
+        rw [backtrack] at h
+        simp only [hk, Rel.isLocked, Bool.false_eq_true, if_false, bind, Except.bind, pure, Except.pure] at h
+        have hwft : target.WF := hwf
+        have htrt : target.Truthful σ := htr
+        have hopt : o.wfOn target.columns = true := hop
+        have hndt : o.isProj = true → target.spineNoDedup := fun hp => hnd hp
+        by_cases he : (target.engine == pref) = true
+        · simp only [he, if_true] at h
+          have hkt : target.engine.kind = .iter := by rw [beq_iff_eq.mp he]; exact hpk
+          cases happ : applyOp st fuel (.u o) target {} with
+          | error e2 =>
+            simp only [happ] at h
+            injection h with h; subst h
+            exact applyOp_iter_error σ st fuel o target _ hkt hwft hopt happ
+          | ok r => simp [happ] at h
+        · simp only [he, Bool.false_eq_true, if_false] at h
+          cases hb : backtrack st fuel (.u o) target pref with
+          | error e2 =>
+            simp only [hb] at h
+            injection h with h; subst h
+            exact backtrack_error σ st pref hpk fuel o target _ hwft htrt hopt hndt hb
+          | ok v => simp [hb] at h
+      | unary cur target ccols =>
+        rw [backtrack] at h
+        have hkt : target.engine.kind = .iter := hk
+        simp only [Rel.engine, hkt, Rel.isLocked, Bool.false_eq_true, if_false, AnyOp.commute, bind, Except.bind,
+          pure, Except.pure] at h
+        obtain ⟨hwft, hcc, hcur⟩ := hwf
+        have htrt : target.Truthful σ := htr
+        subst hcc
+        have hopc : o.wfOn (cur.appliedColumns target.columns) = true := hop
+        have hl := (metadata_truthful σ target hwft htrt).keys
+        have hcurnd : o.isProj = true → cur.isDedup = false := fun hp => (hnd hp).1
+        have hC : commuteSoundAt o cur target.columns (sem σ target) := by
+          cases o with
+          | identity => exact commute_identity cur _ _ hcur
+          | slice a b => exact commute_slice a b cur _ _ hcur
+          | «calc» tag ex => exact commute_calc tag ex cur _ _ hl hcur hopc
+          | dedup => exact commute_dedup cur _ _ hl hcur
+          | sel p => exact commute_sel p cur _ _ hl hcur hopc
+          | sort ts => exact commute_sort ts cur _ _ hl hcur hopc
+          | proj c => exact commute_proj c cur _ _ hcur hopc (hcurnd rfl)
+        cases hfirst : (o.commute cur target.columns (cur.appliedColumns target.columns)).first with
+        | none => simp [hfirst] at h
+        | some f =>
+          simp only [hfirst, Option.map_some] at h
+          obtain ⟨hfw, _, _, _⟩ := commuteSoundAt_some o cur target.columns (sem σ target) f hC hfirst
+          have hfnd : f.isProj = true → target.spineNoDedup := by
+            intro hfp
+            by_cases hop' : o.isProj = true
+            · exact (hnd hop').2
+            · have := (commute_first_nonproj o cur _ _ f (by simpa using hop') hfirst).1
+              rw [this] at hfp; exact absurd hfp hop'
+          cases hb : backtrack st fuel (.u f) target pref with
+          | error e2 =>
+            simp only [hb] at h
+            injection h with h; subst h
+            exact backtrack_error σ st pref hpk fuel f target _ hwft htrt hfw hfnd hb
+          | ok v =>
+            obtain ⟨up, d⟩ := v
+            simp only [hb] at h
+            have ih := backtrack_sound σ st pref hpk fuel f target up d hwft htrt hfw hfnd hb
+            cases up with
+            | same =>
+              simp only [Res.get] at ih
+              simp only at h
+              cases d with
+              | false => simp at h
+              | true =>
+                by_cases hbeq : ((o.commute cur target.columns (cur.appliedColumns target.columns)).second == cur) = true
+                · simp [hbeq] at h
+                · simp only [hbeq, Bool.not_true, Bool.or_self, Bool.false_eq_true, if_false, Bool.true_and] at h
+                  split at h
+                  · rename_i e2 hfin
+                    injection h with h; subst h
+                    exact Or.inl (bt_step_done_err σ o cur target f target _ hC hfirst ih hfin)
+                  · cases h
+            | new u =>
+              simp only [Res.get] at ih
+              simp only at h
+              cases d with
+              | true =>
+                simp only [Bool.not_true, Bool.false_and, Bool.false_eq_true, if_false, Bool.true_and] at h
+                split at h
+                · rename_i e2 hfin
+                  injection h with h; subst h
+                  exact Or.inl (bt_step_done_err σ o cur target f u _ hC hfirst ih hfin)
+                · cases h
+              | false =>
+                simp only [Bool.false_and] at h
+                split at h
+                · rename_i e2 hfin
+                  injection h with h; subst h
+                  by_cases hop' : o.isProj = true
+                  · have : ∃ c, o = .proj c := by cases o <;> simp [UOp.isProj] at hop' ⊢
+                    obtain ⟨c, hoc⟩ := this
+                    subst hoc
+                    obtain ⟨F, hF⟩ := commute_first_proj c cur _ _ f hfirst
+                    subst hF
+                    exact Or.inl ((bt_step_pending_proj_err σ c cur target F u hcur hopc (hcurnd rfl) hfirst ih).1 _ hfin)
+                  · exact Or.inl (bt_step_pending_nonproj_err σ o cur target f u _ hcur (by simpa using hop') hC hfirst ih hfin)
+                · rename_i r hfin
+                  by_cases hop' : o.isProj = true
+                  · have : ∃ c, o = .proj c := by cases o <;> simp [UOp.isProj] at hop' ⊢
+                    obtain ⟨c, hoc⟩ := this
+                    subst hoc
+                    obtain ⟨F, hF⟩ := commute_first_proj c cur _ _ f hfirst
+                    subst hF
+                    have herr := (bt_step_pending_proj_err σ c cur target F u hcur hopc (hcurnd rfl) hfirst ih).2 r
+                    by_cases hsub : (r.get u).columns.subset (cur.appliedColumns target.columns) = true
+                    · simp only [hsub, Bool.not_true, Bool.and_false, Bool.false_eq_true, if_false] at h
+                      cases h
+                    · have hsub' : (r.get u).columns.subset (cur.appliedColumns target.columns) = false := by
+                        simpa using hsub
+                      simp only [hsub', Bool.not_false, Bool.and_self, if_true] at h
+                      split at h
+                      · rename_i e2 hfin2
+                        injection h with h; subst h
+                        exact Or.inl (herr _ hfin hfin2)
+                      · cases h
+                  · obtain ⟨_, g2⟩ := bt_step_pending_nonproj σ o cur target f u r hwft htrt hcur hopc
+                      (by simpa using hop') hC hfirst ih hfin
+                    simp only [g2, Bool.not_true, Bool.and_false, Bool.false_eq_true, if_false] at h
+                    cases h
+
 /-! ### `UnaryOperation.apply` with preferred-engine options -/
 
 /-- `UnaryOperation.apply` for a `UOp`, written without mutable variables. -/
@@ -1087,5 +1374,147 @@ theorem applyOp_sound (σ : Leaves) (st : Store) (fuel : Nat) (o : UOp) (t : Rel
             · simp [hrq] at h
             · simp only [hrq, Bool.false_eq_true, if_false] at h
               exact finish r1 _ res rfl hk1 B.wf B.truthful (B.pend_wf rfl) p1 p2 (Or.inl B.engine) h
+
+
+theorem appendUnary_iter_error (σ : Leaves) (st : Store) (fuel : Nat) (o : UOp) (x : Rel) (e : Err)
+    (hk : x.engine.kind = .iter) (hwf : x.WF) (hop : o.wfOn x.columns = true)
+    (h : appendUnary st fuel (.u o) x = .error e) : e.benign := by
+  cases fuel with
+  | zero => rw [appendUnary] at h; injection h with h; exact Or.inr (Or.inl h.symm)
+  | succ k =>
+    rw [appendUnary] at h
+    simp only [hk] at h
+    exact Or.inl (finishApply_error σ x o hwf hop e h)
+
+theorem transferTo_iter_error (st : Store) (fuel : Nat) (dest : Engine) (t : Rel) (e : Err)
+    (hd : dest.kind = .iter) (hk : t.engine.kind = .iter)
+    (h : transferTo st fuel dest t = .error e) : e.benign := by
+  cases fuel with
+  | zero => rw [transferTo] at h; injection h with h; exact Or.inr (Or.inl h.symm)
+  | succ k =>
+    rw [transferTo] at h
+    simp only [hd, bind, Except.bind, pure, Except.pure] at h
+    cases hs : transferSimplify dest t with
+    | some u =>
+      have hue : u.engine = dest := by
+        have through : ∀ (a b : Rel), transferSimplify dest a = some b → b.engine = dest := by
+          intro a
+          induction a with
+          | transfer oid d t' ih =>
+            intro b hb
+            simp only [transferSimplify] at hb
+            split at hb
+            · rename_i he; injection hb with hb; subst hb; exact (beq_iff_eq.mp he).symm
+            · exact ih b hb
+          | select oid so pr dd a b sk ic t' _ ih => intro b hb; simp only [transferSimplify] at hb; exact ih b hb
+          | leaf => intro b hb; simp [transferSimplify] at hb
+          | unary => intro b hb; simp [transferSimplify] at hb
+          | binary => intro b hb; simp [transferSimplify] at hb
+          | mat => intro b hb; simp [transferSimplify] at hb
+        exact through t u hs
+      simp [hs, hue] at h
+    | none =>
+      simp only [hs] at h
+      by_cases he : (t.engine == dest) = true
+      · simp [he] at h
+      · cases k with
+        | zero =>
+          simp [he, conformIn] at h
+          exact Or.inr (Or.inl h.symm)
+        | succ k' => simp [he, conformIn, hk] at h
+
+/-- **A valid request is never rejected with a column error**, whatever the options: the only
+exceptions `apply` can raise for an operation that is well-formed for the target are the documented
+`EngineError` (unsupported expression, or `require_preferred_engine` could not be honoured) and the
+two model artefacts. -/
+theorem applyOp_error (σ : Leaves) (st : Store) (fuel : Nat) (o : UOp) (t : Rel) (opts : Opts) (e : Err)
+    (hkt : t.engine.kind = .iter) (hpk : ∀ p, opts.pref = some p → p.kind = .iter)
+    (hwf : t.WF) (htr : t.Truthful σ) (hop : o.wfOn t.columns = true)
+    (hnd : o.isProj = true → t.spineNoDedup)
+    (h : applyOp st (fuel+1) (.u o) t opts = .error e) : e.benign := by
+  rw [applyOp_eq_spec] at h
+  unfold applyOpSpec at h
+  obtain ⟨v, hb⟩ := beginApply_ok_of_wf o t opts.pref hop
+  obtain ⟨o', pref⟩ := v
+  simp only [hb] at h
+  obtain ⟨hcases, hpref⟩ := beginApply_cases' o t opts.pref o' pref hb
+  have hprefk : pref.kind = .iter := by
+    rcases hpref with h1 | h1
+    · rw [h1]; exact hkt
+    · exact hpk pref h1
+  have ho'wf : o'.wfOn t.columns = true := by
+    rcases hcases with ⟨h1, h2⟩ | ⟨h1, _⟩
+    · rw [h1]; exact h2
+    · rw [h1]; rfl
+  have ho'nd : o'.isProj = true → t.spineNoDedup := by
+    intro hp
+    rcases hcases with ⟨h1, _⟩ | ⟨h1, _⟩
+    · rw [h1] at hp; exact hnd hp
+    · rw [h1] at hp; simp [UOp.isProj] at hp
+  have finish : ∀ (base : Res) (x : Rel), x.engine.kind = .iter → x.WF → o'.wfOn x.columns = true →
+      (match appendUnary st fuel (.u o') x with
+        | .error e => (.error e : Except Err Res)
+        | .ok .same => .ok base
+        | .ok (.new y) => .ok (.new y)) = .error e → e.benign := by
+    intro base x hxk hxwf hxop hr
+    cases ha : appendUnary st fuel (.u o') x with
+    | error e2 =>
+      simp only [ha] at hr
+      injection hr with hr; subst hr
+      exact appendUnary_iter_error σ st fuel o' x _ hxk hxwf hxop ha
+    | ok ra => cases ra <;> simp [ha] at hr
+  by_cases he : (pref == t.engine) = true
+  · simp only [he, if_true] at h
+    exact finish .same t hkt hwf ho'wf h
+  · simp only [he, Bool.false_eq_true, if_false] at h
+    cases hbtv : (if opts.backtrack = true then backtrack st fuel (.u o') t pref else .ok (.same, false)) with
+    | error e2 =>
+      simp only [hbtv] at h
+      injection h with h; subst h
+      by_cases hbk : opts.backtrack = true
+      · simp only [hbk, if_true] at hbtv
+        exact backtrack_error σ st pref hprefk fuel o' t _ hwf htr ho'wf ho'nd hbtv
+      · simp [hbk] at hbtv
+    | ok v1 =>
+      obtain ⟨r1, d⟩ := v1
+      have B : BTok σ o' t (r1.get t) d := by
+        by_cases hbk : opts.backtrack = true
+        · simp only [hbk, if_true] at hbtv
+          exact backtrack_sound σ st pref hprefk fuel o' t r1 d hwf htr ho'wf ho'nd hbtv
+        · simp only [hbk, Bool.false_eq_true, if_false] at hbtv
+          injection hbtv with hbtv; injection hbtv with h1 h2; subst h1; subst h2
+          exact BTok.unchanged σ o' t hwf htr ho'wf
+      simp only [hbtv] at h
+      cases d with
+      | true => simp at h
+      | false =>
+        simp only at h
+        have hk1 : (r1.get t).engine.kind = .iter := by rw [B.engine]; exact hkt
+        by_cases htrf : opts.transfer = true
+        · simp only [htrf, if_true] at h
+          cases htt : transferTo st fuel pref (r1.get t) with
+          | error e2 =>
+            simp only [htt] at h
+            injection h with h; subst h
+            exact transferTo_iter_error st fuel pref (r1.get t) _ hprefk hk1 htt
+          | ok r2 =>
+            simp only [htt] at h
+            obtain ⟨_, t2, t3, t4, _⟩ := transferTo_iter_sound σ st fuel pref (r1.get t) r2 hprefk hk1 B.wf B.truthful htt
+            have hx := finish
+            cases r2 with
+            | same => exact hx r1 _ hk1 B.wf (B.pend_wf rfl) h
+            | new y =>
+              refine hx (.new y) y ?_ ?_ ?_ h
+              · have : (Res.new y).get (r1.get t) = y := rfl
+                rw [this] at t2; rw [t2]; exact hprefk
+              · exact t4
+              · have : (Res.new y).get (r1.get t) = y := rfl
+                rw [this] at t3; rw [t3]; exact B.pend_wf rfl
+        · simp only [htrf, Bool.false_eq_true, if_false] at h
+          by_cases hrq : opts.require = true
+          · simp only [hrq, if_true] at h
+            injection h with h; exact Or.inl h.symm
+          · simp only [hrq, Bool.false_eq_true, if_false] at h
+            exact finish r1 _ hk1 B.wf (B.pend_wf rfl) h
 
 end DafRel
